@@ -253,3 +253,66 @@ for _num in (False, True):
     for _pp in (True, False):
         _n, _f = _mk(_num, _pp)
         globals()[_n] = _f
+
+
+# ------------------------------------------------------------------ several unique fields
+K2 = [u"a", u"b", u"c", u"new"]
+E2 = [u"x", u"y", u"z", u"new"]
+
+
+def run_two_unique(k1, e1, k2, e2, same_writer):
+    """update_document with two unique fields replaces every committed document that matches on *either* field"""
+    random.seed(5)
+    ix = RamStorage().create_index(fields.Schema(k=fields.ID(stored=True, unique=True), e=fields.ID(stored=True, unique=True), v=fields.STORED,
+                                                 n=fields.NUMERIC(int, stored=True, unique=True)))
+    live = []
+    w = ix.writer()
+    for i, (k, e) in enumerate(zip(K2[:3], E2[:3])):
+        w.add_document(k=k, e=e, v=i, n=i)
+        live.append((k, e, i, i))
+        if i == 1:
+            w.commit()
+            w = ix.writer()
+    w.commit(merge=False)
+    ups = [(K2[k1], E2[e1], 10, 1), (K2[k2], E2[e2], 11, 7)]       # the first update also collides on the numeric unique field with document 1
+    if same_writer and (ups[0][0] == ups[1][0] or ups[0][1] == ups[1][1]):
+        return None, False       # a writer's deletes only reach committed documents: outside the key discipline
+    w = None
+    for j, (k, e, v, n) in enumerate(ups):
+        if w is None:
+            w = ix.writer()
+        w.update_document(k=k, e=e, v=v, n=n)
+        if same_writer:
+            # both updates act on the committed state
+            pass
+        if not same_writer or j == 1:
+            w.commit()
+            w = None
+        if not same_writer:
+            live = [d for d in live if d[0] != k and d[1] != e and d[3] != n] + [(k, e, v, n)]
+    if same_writer:
+        for (k, e, v, n) in ups:
+            live = [d for d in live if d[2] >= 10 or (d[0] != k and d[1] != e and d[3] != n)]
+        live += ups
+    with ix.searcher() as s:
+        got = sorted((d["k"], d["e"], d["v"], d["n"]) for d in s.reader().all_stored_fields())
+    if got != sorted(live):
+        return "updates %r (%s): index holds %r, model %r" % (ups, "one writer" if same_writer else "two commits", got, sorted(live)), True
+    return None, True
+
+
+@h(bounds="index of 3 documents in two segments with unique fields k, e (ID) and n (NUMERIC); two update_document calls whose k and e values are chosen by symbolic "
+          "codes among the 3 existing values and a new one (so an update can match 0..3 different committed documents across the unique fields), in one writer or in "
+          "two commits; the index holds exactly the documents not matched on any unique field plus the new ones",
+   funcs=["whoosh.writing.IndexWriter.update_document", "whoosh.searching.Searcher._find_unique", "whoosh.writing.SegmentWriter.delete_document"],
+   examples=[dict(k1=0, e1=1, k2=3, e2=3, sw=False), dict(k1=3, e1=0, k2=1, e2=2, sw=True)], timeout=dict(quick=600, thorough=900),
+   outside="more than three unique fields, updates of documents added in the same writer")
+def c07_two_unique(k1: int, e1: int, k2: int, e2: int, sw: bool) -> Optional[str]:
+    """
+    pre: 0 <= k1 < 4 and 0 <= e1 < 4 and 0 <= k2 < 4 and 0 <= e2 < 4
+    post: _ is None
+    """
+    with notrace():
+        r, nontrivial = run_two_unique(pick(k1, 4), pick(e1, 4), pick(k2, 4), pick(e2, 4), sym_true(lambda: sw))
+    tick(nontrivial)
+    return r
